@@ -441,4 +441,4 @@ def run(rep, facts, tier):
             ri.name, (rets_to or [(0, ri.j['span'])])[0][1])
 
 # as-built addendum
-EXPLANATION += " As built (DESIGN 9.2): R1 also: readers of the log are the debugger words and the context open/close marks (through length-mark accessors). R2 also: a failed run under eval leaves the context like compile+run; an immediate word returns to the end of the code and the builder's ip is restored; a context never starts at the ip of the enclosing one."
+EXPLANATION += " As built (DESIGN 9.2): R1 also: readers of the log are the debugger words and the context open/close marks (through length-mark accessors). R2 also: a failed run under eval leaves the context like compile+run, stopped at the failing instruction and continuable; an immediate word returns to the end of the code and the builder's ip is restored; a context never starts at the ip of the enclosing one."
